@@ -107,7 +107,7 @@ def replay(path):
         mst, mout = run.parse_model_outcome(m)
         print("=== model:", mst); print(mout.decode("utf-8", "replace"))
         print("=== implementation:", i["status"], i.get("raw_err", "")); print(i["stdout"].decode("utf-8", "replace"))
-        d = run.compare_cli(m, i)
+        d = run.compare_cli(m, i, case)
         print("=== agree" if d is None else "=== DIFFER: " + d)
         return 0 if d is None else 1
     if kind in ("resolve", "parse", "chan"):
